@@ -451,6 +451,8 @@ def check(prop, tier, seed, budget_override, workers):
     for v in sorted(res['viol'], key=lambda v: v['index']):
         by_sig.setdefault(v['result']['sig'], []).append(v)
     os.makedirs(os.path.join(ROOT, 'replays'), exist_ok=True)
+    for sig, vs in list(by_sig.items())[:40]:
+        log('  candidate %-90s x%d (first index %d)' % (sig[:90], len(vs), vs[0]['index']))
     server = Server(engine)
     n_new = 0
     for sig, vs in by_sig.items():
@@ -541,7 +543,7 @@ def check(prop, tier, seed, budget_override, workers):
             distinct_nontrivial=len(res['tsigs']),
             rule=cfg['rule'],
             samples=samples or [dict(note='no sample captured')],
-            exhaustive=False,
+            exhaustive=bool(cfg.get('finite') and enumerated and res['runs'] >= enumerated and exit_code != 2),
             enumerated_prefix=min(enumerated, res['runs']),
             enumerated_prefix_complete=bool(enumerated and res['runs'] >= enumerated),
             nontrivial_runs=res['nontrivial'],
